@@ -62,13 +62,20 @@ def _run(case, prior=False):
         t = forms.get("tuples")
         return tuple(xs) if t is True or (isinstance(t, list) and pos in t) else list(xs)
 
+    pkd = forms.get("pop_key_dtype", kd) if kd != "int" else "int"
+
     def keycol(values, data_side):
-        """a key column in the dtype of the case: str (object), int64 or pandas categorical"""
-        if kd == "int":
+        """a key column in the dtype of the case – the data's and the population's may differ: str (pandas string dtype), object,
+        int64 or pandas categorical"""
+        k = kd if data_side else pkd
+        if k == "int":
             return np.array([INTKEY[v] for v in values], dtype="int64")
-        if kd == "category":
-            cats = sorted(set(values) | ({"unused"} if data_side else {"zz"}))
-            return pd.Categorical(values, categories=cats)
+        if k == "category":
+            allv = sorted({v for r in case["rows"] for v in r["keys"]} | {v for a in case["attrs"] for v in a["keys"]}
+                          | {v for u in case["calls"] if u.get("op") == "update" for a in u["attrs"] for v in a["keys"]})
+            return pd.Categorical(values, categories=allv + (["unused"] if data_side else ["zz"] if "zz" not in allv else []))
+        if k == "object":
+            return pd.Series(list(values), dtype=object).values
         return list(values)
 
     def frame():
@@ -108,16 +115,17 @@ def _run(case, prior=False):
             return None
         return int(v) if float(v) == int(v) else float(v)
 
-    out = {"error": None, "build": None, "calls": [], "badargs": []}
+    out = {"error": None, "build": None, "calls": [], "badargs": [], "updates": []}
 
     def lookup(ci, index, now, pop_now):
+        table = lk.twin if case["calls"][ci].get("table") == "twin" else lk.table
         rec = {"call": ci, "year": int(now.year), "yday": int(now.timetuple().tm_yday), "idx": [int(i) for i in index],
                "untracked": [] if pop_now is None or "tracked" not in pop_now else [int(i) for i in pop_now.index[~pop_now["tracked"].astype(bool)]]}
-        if lk.table is None:
+        if table is None:
             rec["outcome"] = "no-table"
         else:
             try:
-                res = lk.table(index)
+                res = table(index)
                 rec["outcome"] = "ok"
                 rec["type"] = type(res).__name__
                 df = res.to_frame() if isinstance(res, pd.Series) else res
@@ -148,11 +156,23 @@ def _run(case, prior=False):
                         xs = np.array(xs, dtype="int64")
                     cols[p] = xs
             self.population_view.update(pd.DataFrame(cols, index=pop_data.index))
+            self.int_cols = {c for c, v in cols.items() if getattr(v, "dtype", None) == np.dtype("int64") and c in params}
+
+        def change(self, u):
+            """another component's work between two reads: new key values (a simulant changes group) / parameter values (ageing)"""
+            cols = {}
+            for j, k in enumerate(case["keys"]):
+                cols[k] = keycol([a["keys"][j] for a in u["attrs"]], False)
+            for j, p in enumerate(params):
+                if p != "year":
+                    xs = [a["xs"][j] / 4 for a in u["attrs"]]
+                    cols[p] = np.array(xs, dtype="int64") if p in self.int_cols else xs
+            self.population_view.update(pd.DataFrame(cols, index=pd.Index(np.array(u["sims"], dtype="int64"))))
 
     class L(Component):
         def __init__(self):
             super().__init__()
-            self.table, self.build = None, None
+            self.table, self.twin, self.build, self.frame, self.before = None, None, None, None, None
 
         @property
         def name(self):
@@ -181,7 +201,14 @@ def _run(case, prior=False):
                         kwargs["value_columns"] = ()
                     if forms.get("omit_empty"):          # leave out the arguments that are empty (defaults of the interface)
                         kwargs = {k: v for k, v in kwargs.items() if len(v)}
-                    self.table = b.lookup.build_table(frame(), **kwargs)
+                    self.frame = frame()
+                    self.before = self.frame.copy(deep=True)
+                    tw = forms.get("twin")
+                    if tw and tw.get("first"):        # a second table on the SAME data object, built first
+                        self.twin = b.lookup.build_table(self.frame, **dict(kwargs, value_columns=seq(tw["values"])))
+                    self.table = b.lookup.build_table(self.frame, **kwargs)
+                    if tw and not tw.get("first"):
+                        self.twin = b.lookup.build_table(self.frame, **dict(kwargs, value_columns=seq(tw["values"])))
                 self.build = "ok"
             except Exception as e:  # noqa: BLE001
                 self.build = "err:" + type(e).__name__
@@ -217,7 +244,7 @@ def _run(case, prior=False):
                     self.view.update(pd.Series(False, index=pd.Index(np.array(sims, dtype="int64")), name="tracked"))
             self.event_index = e.index
             for ci, c in enumerate(case["calls"]):
-                if c.get("where") == "listener" and c["after"] == self.nstep:
+                if c.get("where") == "listener" and c["after"] == self.nstep and not c.get("op"):
                     lookup(ci, resolve(c), self.clock(), sim.get_population(untracked=True))
 
     def resolve(c):
@@ -230,7 +257,8 @@ def _run(case, prior=False):
     SimulationContext._clear_context_cache()
     lk = L()
     unt = Untracker()
-    comps = ([Pop()] if pop_cols else []) + [lk, unt]
+    popc = Pop()
+    comps = ([popc] if pop_cols else []) + [lk, unt]
     y, m, d = case["start"]
     cfg = {"population": {"population_size": len(case["attrs"])},
            "time": {"start": {"year": y, "month": m, "day": d}, "end": {"year": y + 30, "month": 1, "day": 1},
@@ -246,11 +274,21 @@ def _run(case, prior=False):
         for k in range(nsteps + 1):
             for ci, c in enumerate(case["calls"]):
                 if c["after"] == k and c.get("where", "outside") == "outside":
-                    lookup(ci, resolve(c), sim._clock.time, sim.get_population(untracked=True))
+                    if c.get("op") == "update":
+                        try:
+                            popc.change(c)
+                            out["updates"].append("ok")
+                        except Exception as e:  # noqa: BLE001
+                            out["updates"].append("err:" + type(e).__name__)
+                    else:
+                        lookup(ci, resolve(c), sim._clock.time, sim.get_population(untracked=True))
             if k < nsteps:
                 sim.step()
     except Exception as e:  # noqa: BLE001
         out["error"] = f"{type(e).__name__}: {e}"
+    if lk.frame is not None:          # building and using tables must leave the caller's data object alone
+        out["data_unchanged"] = bool(lk.frame.equals(lk.before) and list(lk.frame.columns) == list(lk.before.columns)
+                                     and lk.frame.dtypes.astype(str).tolist() == lk.before.dtypes.astype(str).tolist())
     return out
 
 
@@ -318,7 +356,7 @@ class C15(Prop):
             case["values"] = [f"v{j}" for j in range(nv)]
             if case["explicit_values"] and rng.random() < 0.5:
                 case["values"].reverse()              # requested in another order than the data has them
-            case["forms"] = {"key_dtype": rng.choice(["str", "str", "int", "category"]), "col_shuffle": rng.choice([None, rng.randint(0, 999), rng.randint(0, 999)]),
+            case["forms"] = {"key_dtype": rng.choice(["str", "str", "int", "category", "object"]), "col_shuffle": rng.choice([None, rng.randint(0, 999), rng.randint(0, 999)]),
                              "extra_values": rng.choice([[], [], ["w0"], ["a_extra", "zz_extra"]]) if case["explicit_values"] else [],
                              "bin_int": rng.random() < 0.5, "attr_int": rng.random() < 0.5,
                              "tuples": [t for t in ("keys", "params", "values") if rng.random() < 0.4],
@@ -388,6 +426,46 @@ class C15(Prop):
         for c in calls:
             if rng.random() < 0.25 and c["where"] != "initializer":
                 c["idx"] = rng.choice(["event", "all"])
+        # LESSONS 12: the same read again – verbatim, on a covered sub-index, permuted – after other reads, after another
+        # component changed key / parameter attributes of requested simulants, after a clock step; by another caller; on a twin table
+        fm = case.get("forms", {})
+        if kind != "scalar" and fm.get("key_dtype") in ("str", "object", "category") and rng.random() < 0.5:
+            fm["pop_key_dtype"] = rng.choice(["str", "object", "category"])       # the population carries the keys in another dtype
+        if kind != "scalar" and case["explicit_values"] and case["wellformed"] and rng.random() < 0.25:
+            tv = list(case["values"])
+            rng.shuffle(tv)
+            fm["twin"] = {"values": tv[:rng.randint(1, len(tv))], "first": rng.random() < 0.5}
+        has_cols = bool(case["keys"] or [p for p in case["params"] if p != "year"])
+        if rng.random() < 0.5:
+            base = rng.choice([c for c in calls if c["where"] != "initializer"] or [None])
+            if base is not None:
+                extra = []
+                for _ in range(rng.randint(0, 2)):
+                    r = rng.random()
+                    if r < 0.55 and has_cols and n >= 2:
+                        # another component's work: two simulants swap their attributes (one of them requested by the base read if possible)
+                        pool = base["idx"] if isinstance(base["idx"], list) and base["idx"] else list(range(n))
+                        s1 = rng.choice(pool)
+                        s2 = rng.choice([x for x in range(n) if x != s1])
+                        cur = self._at(dict(case, calls=calls + extra), len(calls) + len(extra))["attrs"]
+                        extra.append({"op": "update", "after": base["after"], "where": "outside", "sims": [s1, s2], "attrs": [cur[s2], cur[s1]]})
+                    else:
+                        extra.append({"after": base["after"], "idx": rng.sample(range(n), rng.randint(1, n)), "where": "outside"})
+                variant = rng.choice(["verbatim", "verbatim", "sub-index", "permuted"])
+                idx = base["idx"]
+                if isinstance(idx, list) and idx:
+                    idx = list(idx) if variant == "verbatim" else rng.sample(idx, rng.randint(1, len(idx))) if variant == "sub-index" else rng.sample(idx, len(idx))
+                else:
+                    variant = "verbatim"
+                rpt = dict(base, idx=idx, repeat=variant, where=rng.choice(["outside", "outside", "listener"]),
+                           after=base["after"] + rng.choice([0, 0, 0, 1]))
+                if rpt["where"] == "listener":
+                    rpt["after"] += 1
+                calls = calls + extra + [rpt]
+        if fm.get("twin"):
+            for c in calls:
+                if not c.get("op") and rng.random() < 0.4:
+                    c["table"] = "twin"
         case["calls"] = calls
         # build_table calls the interface must refuse (made before the real table is built)
         if rng.random() < 0.12:
@@ -531,6 +609,22 @@ class C15(Prop):
                         "scalar_list": len(vals) > 1, "forms": {"scalar_form": form, "tuples": ["values"], "first_table": True}, "start": [2021, 5, 5], "step_days": 1,
                         "badargs": [["list", {"value_columns": []}], ["empty_list", {"value_columns": []}], ["str", {"value_columns": ["a"]}]],
                         "calls": [{"after": 0, "idx": "created", "where": "initializer"}, {"after": 1, "idx": [2, 0, 2], "where": "listener"}, {"after": 0, "idx": []}]})
+        # LESSONS 12: the same read repeated verbatim / on a sub-index / permuted, with another component changing key and parameter
+        # attributes of requested simulants in between, by different callers, alternating with a twin table built on the SAME data
+        # object; a year read repeated across New Year
+        upd = lambda sims, after=0: {"op": "update", "after": after, "where": "outside", "sims": sims, "attrs": [attrs[sims[1]], attrs[sims[0]]]}   # noqa: E731
+        out.append(dict(b2, extrapolate=True, attrs=attrs, forms={"twin": {"values": ["v1"], "first": True}, "pop_key_dtype": "category"},
+                        calls=[{"after": 0, "idx": [0, 1, 2, 3]}, {"after": 0, "idx": [0, 1, 2, 3], "repeat": "verbatim"}, upd([0, 1]),
+                               {"after": 0, "idx": [0, 1, 2, 3], "repeat": "verbatim"}, {"after": 0, "idx": [1, 0], "repeat": "sub-index", "table": "twin"},
+                               {"after": 0, "idx": [5, 4]}, {"after": 1, "idx": [3, 2, 1, 0], "repeat": "permuted", "where": "listener"},
+                               upd([2, 7], after=1), {"after": 1, "idx": [0, 1, 2, 3], "repeat": "verbatim", "table": "twin"}, {"after": 1, "idx": [0, 1, 2, 3], "repeat": "verbatim"},
+                               {"after": 2, "idx": "all", "where": "listener"}]))
+        out.append(dict(base, start=[2021, 12, 31], rows=rows1 + [{"keys": [], "bins": [[4 * 2022, 4 * 2023]], "vals": [22]}],
+                        calls=[{"after": 0, "idx": [1, 0]}, {"after": 0, "idx": [1, 0], "repeat": "verbatim"}, {"after": 1, "idx": [1, 0], "repeat": "verbatim"},
+                               {"after": 2, "idx": [1, 0], "repeat": "verbatim", "where": "listener"}, {"after": 2, "idx": [1, 0], "repeat": "verbatim"}]))
+        out.append(dict(cat, forms={"twin": {"values": ["v1", "v0"], "first": False}, "key_dtype": "object", "pop_key_dtype": "category"},
+                        calls=[{"after": 0, "idx": [2, 1, 0]}, {"op": "update", "after": 0, "where": "outside", "sims": [0, 1], "attrs": [{"keys": ["b", "x"], "xs": []}, {"keys": ["a", "y"], "xs": []}]},
+                               {"after": 0, "idx": [2, 1, 0], "repeat": "verbatim"}, {"after": 0, "idx": [1], "repeat": "sub-index", "table": "twin"}]))
         out.append({"kind": "unit", "bins": [0, 40, 100, 160], "xs": [0, 40, 39, 41, -12, 160, 161, 400, 100]})
         out.append({"kind": "unit", "bins": [5], "xs": [4, 5, 6]})
         return out
@@ -546,17 +640,18 @@ class C15(Prop):
         if case.get("untrack"):
             yield dict(case, untrack=[])
         for i, c in enumerate(case["calls"]):
+            if c.get("op"):
+                continue
             if isinstance(c["idx"], str):
                 yield dict(case, calls=case["calls"][:i] + [dict(c, idx=list(range(len(case["attrs"]))))] + case["calls"][i + 1:])
                 continue
             if len(c["idx"]) > 1:
                 for j in range(len(c["idx"])):
                     yield dict(case, calls=case["calls"][:i] + [dict(c, idx=c["idx"][:j] + c["idx"][j + 1:])] + case["calls"][i + 1:])
-        if len(case["values"]) > 1 and case["kind"] != "scalar":
+        if len(case["values"]) > 1 and case["kind"] != "scalar" and not case.get("forms", {}).get("twin"):
             yield dict(case, values=case["values"][:1], rows=[dict(r, vals=r["vals"][:1]) for r in case["rows"]])
         # drop a key group that no requested simulant uses
-        used = {tuple(case["attrs"][i]["keys"]) for c in case["calls"]
-                for i in (range(len(case["attrs"])) if isinstance(c["idx"], str) else c["idx"])}
+        used = {tuple(a["keys"]) for a in case["attrs"]} | {tuple(a["keys"]) for c in case["calls"] if c.get("op") for a in c["attrs"]}
         for kc in {tuple(r["keys"]) for r in case["rows"]} - used:
             yield dict(case, rows=[r for r in case["rows"] if tuple(r["keys"]) != kc])
 
@@ -587,6 +682,42 @@ class C15(Prop):
         """the call of the case with its index resolved to the labels that were actually requested"""
         c = case["calls"][rec["call"]]
         return dict(c, idx=rec["idx"], spec=c["idx"] if isinstance(c["idx"], str) else "labels")
+
+    @staticmethod
+    def _proj(case, c, vals):
+        """the value cells of a data row as the table of call `c` returns them (the twin table built on the same data object asks
+        for its own value columns)"""
+        if c.get("table") != "twin" or vals is None:
+            return vals
+        return [vals[case["values"].index(v)] for v in case["forms"]["twin"]["values"]]
+
+    def _cols_of(self, case, c):
+        return list(case["forms"]["twin"]["values"]) if c.get("table") == "twin" else self._columns(case)
+
+    @staticmethod
+    def _order(case):
+        """indices of case["calls"] in the order the harness executes them: initializer reads, then for k = 0, 1, …: the
+        outside operations after k steps (list order), then the reads made inside the time_step listener of step k + 1"""
+        calls = case["calls"]
+        out = [i for i, c in enumerate(calls) if c.get("where") == "initializer"]
+        n = max([c["after"] for c in calls] + [0])
+        for k in range(n + 1):
+            out += [i for i, c in enumerate(calls) if c.get("where", "outside") == "outside" and c["after"] == k]
+            out += [i for i, c in enumerate(calls) if c.get("where") == "listener" and c["after"] == k + 1]
+        return out
+
+    def _at(self, case, ci):
+        """the case as call `ci` sees it: the attributes of the population after every update executed before that call
+        (expectations follow the HISTORY of the case; nothing is read back from the implementation)"""
+        attrs = [dict(a) for a in case["attrs"]]
+        for j in self._order(case):
+            if j == ci:
+                break
+            u = case["calls"][j]
+            if u.get("op") == "update":
+                for sim, a in zip(u["sims"], u["attrs"]):
+                    attrs[sim] = dict(a)
+        return dict(case, attrs=attrs)
 
     # ------------------------------------------------------------------ model
     def _scale(self, case, j, q):
@@ -621,7 +752,8 @@ class C15(Prop):
             for rec in obs["calls"]:
                 c = self._call(case, rec)
                 y, yd = self._date(case, c)
-                L.append(" ".join([f"call {y} {yd}"] + [self._req(case, i) for i in c["idx"]]))
+                view = self._at(case, rec["call"])
+                L.append(" ".join([f"call {y} {yd}"] + [self._req(view, i) for i in c["idx"]]))
         return L
 
     def compare(self, case, obs, replies):
@@ -654,7 +786,7 @@ class C15(Prop):
             mrows = []
             for tok in rep.split()[1:]:
                 lab, cells = tok.split("=")
-                mrows.append([int(lab), None if cells == "nan" else [int(x) for x in cells.split(",")]])
+                mrows.append([int(lab), None if cells == "nan" else self._proj(case, c, [int(x) for x in cells.split(",")])])
             irows = [[i, None if all(v is None for v in row) else row] for i, row in zip(rec["index"], rec["cells"])]
             if irows != mrows:
                 dis.append(f"call {c} at {rec['year']}/{rec['yday']}: impl {irows}, model {mrows}")
@@ -728,9 +860,14 @@ class C15(Prop):
                 f.append({"sig": "bad-arguments-accepted", "msg": f"build_table({kind}, {args}) was accepted"})
         if len(obs.get("badargs", [])) != len(case.get("badargs", [])):
             f.append({"sig": "bad-arguments-missing", "msg": f"{obs.get('badargs')}"})
-        if len(obs["calls"]) != len(case["calls"]):
+        if len(obs["calls"]) != sum(1 for c in case["calls"] if not c.get("op")):
             f.append({"sig": "call-missing", "msg": f"{len(obs['calls'])} of {len(case['calls'])} calls were made"})
         ext = self._extrapolate(case)
+        nupd = sum(1 for c in case["calls"] if c.get("op") == "update")
+        if obs.get("updates", []) != ["ok"] * nupd:
+            f.append({"sig": "harness-update-refused", "msg": f"attribute updates between reads: {obs.get('updates')}"})
+        if obs.get("data_unchanged") is False:
+            f.append({"sig": "data-object-modified", "msg": "the DataFrame handed to build_table was modified by building / using the table(s)"})
         if case["kind"] != "scalar":
             if case["wellformed"] and obs["build"] != "ok":
                 return [{"sig": "wellformed-data-rejected", "msg": f"build_table: {obs['build']}"}]
@@ -759,9 +896,10 @@ class C15(Prop):
                 elif (rec["type"] == "Series") != (len(case["scalar"]) == 1):
                     f.append({"sig": "result-shape", "msg": f"{where}: {rec['type']} for {len(case['scalar'])} values"})
                 continue
-            scans = [self._scan(case, i, self._plausible_years(year, yday)) for i in c["idx"]]
+            view = self._at(case, rec["call"])        # the population as the history of the case leaves it before this read
+            scans = [self._scan(view, i, self._plausible_years(year, yday)) for i in c["idx"]]
             # what the code's own year value (year + tm_yday/365.25) selects – only used to name the known finding F16
-            code = [self._scan(case, i, self._code_year(year, yday)) for i in c["idx"]] if leap_dec31 else None
+            code = [self._scan(view, i, self._code_year(year, yday)) for i in c["idx"]] if leap_dec31 else None
             unknown = [i for i, s in zip(c["idx"], scans) if s[0] == "unknown-key"]
             if unknown:
                 if rec["outcome"] == "ok":
@@ -788,20 +926,20 @@ class C15(Prop):
                 missing = [i for i in c["idx"] if i not in rec["index"]]
                 f.append({"sig": "result-index", "msg": f"{where}: result index {rec['index']}" + (f"; requested labels {missing} are missing" if missing else "")})
                 continue
-            if rec["columns"] != self._columns(case):
-                f.append({"sig": "result-columns", "msg": f"{where}: columns {rec['columns']}, value columns {self._columns(case)} ({'requested' if case['explicit_values'] else 'inferred'})"})
-            if (rec["type"] == "Series") != (len(case["values"]) == 1):
+            if rec["columns"] != self._cols_of(case, c):
+                f.append({"sig": "result-columns", "msg": f"{where}: columns {rec['columns']}, value columns {self._cols_of(case, c)} ({'requested' if case['explicit_values'] else 'inferred'})"})
+            if (rec["type"] == "Series") != (len(self._cols_of(case, c)) == 1):
                 f.append({"sig": "result-shape", "msg": f"{where}: {rec['type']} for {len(case['values'])} value columns"})
             for i, row, s in zip(c["idx"], rec["cells"], scans):
-                allowed = [r["vals"] for r in s[1]]
+                allowed = [self._proj(case, c, r["vals"]) for r in s[1]]
                 if not allowed or (not has_year and len(allowed) != 1):
                     f.append({"sig": "oracle-ambiguous", "msg": f"{where}: simulant {i}: {len(allowed)} rows match in data the generator built well-formed"})
                 elif row not in allowed:
                     # is it the row of the NEXT year, on 31 December of a leap year?
-                    if leap_dec31 and row in [r["vals"] for r in code[c["idx"].index(i)][1]]:
+                    if leap_dec31 and row in [self._proj(case, c, r["vals"]) for r in code[c["idx"].index(i)][1]]:
                         f.append({"sig": "year-param-outside-clock-year", "msg": f"{where}: simulant {i} received the cells {row} of the row for {rec['year'] + 1}; the rows covering the clock's year are {allowed}"})
                     else:
-                        f.append({"sig": "wrong-row", "msg": f"{where}: simulant {i} (keys {case['attrs'][i]['keys']}, values {case['attrs'][i]['xs']}) received {row}; brute-force row scan gives {allowed}"})
+                        f.append({"sig": "wrong-row", "msg": f"{where}: simulant {i} (keys {view['attrs'][i]['keys']}, values {view['attrs'][i]['xs']}) received {row}; brute-force row scan gives {allowed}"})
             # independence: one simulant, one answer within a call
             seen = {}
             for i, row in zip(c["idx"], rec["cells"]):
@@ -811,8 +949,9 @@ class C15(Prop):
         by = {}
         for rec in obs["calls"]:
             if rec["outcome"] == "ok" and rec.get("index") == rec["idx"]:
+                view = self._at(case, rec["call"])
                 for i, row in zip(rec["index"], rec["cells"]):
-                    k = (i, rec["year"], rec["yday"])
+                    k = (i, rec["year"], rec["yday"], case["calls"][rec["call"]].get("table", "main"), str(view["attrs"][i]))
                     if by.setdefault(k, row) != row:
                         f.append({"sig": "depends-on-request", "msg": f"simulant {i} at {rec['year']}/{rec['yday']}: {by[k]} in one request, {row} in another"})
         return f
@@ -831,6 +970,10 @@ class C15(Prop):
             b = case["bins"]
             return t + ["digitize:" + ("below" if x < b[0] else "on-edge" if x in b else "above" if x > b[-1] else "between") for x in case["xs"]]
         t.append("build:" + ("ok" if obs["build"] == "ok" else "rejected"))
+        t += ["update-between-reads"] * sum(1 for c in case["calls"] if c.get("op") == "update")
+        fm0 = case.get("forms", {})
+        if fm0.get("pop_key_dtype") and fm0.get("pop_key_dtype") != fm0.get("key_dtype"):
+            t.append(f"key-dtype:data-{fm0.get('key_dtype')}-population-{fm0['pop_key_dtype']}")
         t += ["bad-arguments:" + ("refused" if r != "ok" else "accepted") for r in obs.get("badargs", [])]
         if case["kind"] == "scalar":
             t.append("scalar:" + (case.get("forms", {}).get("scalar_form") or ("list" if case["scalar_list"] else "float")) + f":{len(case['scalar'])}")
@@ -859,6 +1002,10 @@ class C15(Prop):
             idx = c["idx"]
             t.append("request:" + c["spec"])
             t.append("where:" + c.get("where", "outside"))
+            if c.get("repeat"):
+                t.append("repeat:" + c["repeat"])
+            if c.get("table") == "twin":
+                t.append("table:twin-on-same-data-object")
             if set(idx) & set(rec["untracked"]):
                 t.append("request:includes-untracked:" + case["kind"])
             t.append("index:" + ("empty" if not idx else "repeated" if len(set(idx)) < len(idx) else
@@ -866,8 +1013,9 @@ class C15(Prop):
             if "year" in case["params"] and rec["yday"] >= 365:
                 t.append("clock:last-day-of-year" + (":leap" if rec["yday"] == 366 else ""))
             if case["kind"] == "interp" and rec["outcome"] == "ok":
+                view = self._at(case, rec["call"])
                 for i in idx:
-                    a = case["attrs"][i]
+                    a = view["attrs"][i]
                     grp = [r for r in case["rows"] if r["keys"] == a["keys"]]
                     for j, p in enumerate(case["params"]):
                         if p == "year" or not grp:
